@@ -134,6 +134,20 @@ func TimerSendNow[T any](ch chan T, v T, h uint64) bool {
 	return e.sendNow(chanPtr(ch), cap(ch), ch, v, h)
 }
 
+// SendNow appends v to a buffered channel without a scheduling point (broker-side delivery that is
+// atomic with the step that caused it); reports false if the channel is closed or full.
+func SendNow[T any](ch chan T, v T) bool {
+	e := cur
+	if e == nil || e.killed {
+		return false
+	}
+	var h uint64 = 0x5e4d
+	if e.cur != nil {
+		h = e.cur.H
+	}
+	return e.sendNow(chanPtr(ch), cap(ch), ch, v, h)
+}
+
 // CloseNow closes ch from a timer callback (not a scheduling point).
 func CloseNow[T any](ch chan T, h uint64) {
 	e := cur
